@@ -286,6 +286,13 @@ def check():
         c12.memo_lemmas(o, L, S, E, MMm, MS, fsm, memo_structural, on_sat, bad)
     except KeyError as exn:
         o.inconc("memo lemmas: %s" % str(exn)[:160])
+    # ... and on the parser terminating at all: no production re-enters itself before a token has been consumed, every
+    # round of a list loop consumes one (lib/prodlemma.py, shared with C11)
+    try:
+        import prodlemma
+        prodlemma.termination(MS, E, o, memo_structural)
+    except Exception as exn:
+        o.inconc("parser termination: %s" % repr(exn)[:160])
 
     # tokenize: a number-literal token is only ever stored with a number (the compiler's literal_tag / eval_literal rely on it)
     try:
